@@ -34,6 +34,10 @@ def _abort_item(kind):
         return OSError(errno.EIO, 'io')
     if kind == 'timeout':
         return TimeoutError(errno.ETIMEDOUT, 'timeout')
+    if kind == 'timeout_noerrno':
+        return socket.timeout('timed out')          # what a socket with a timeout raises: TimeoutError without errno
+    if kind == 'garbage':
+        return b'\x00\x01\r\nnot-http\r\n\r\n'       # bytes instead of an error: an upstream that does not speak HTTP
     raise ValueError(kind)
 
 
@@ -51,6 +55,7 @@ def _one_connection(xk, env, role, d0, s0, s1, abort_at, abort_side, abort_kind,
                                                    'gaierror': socket.gaierror(-2, 'unknown name')}[connect]]
     script = SCRIPTS[role]
     us = None
+    injected = None
     for i in range(len(script) + 6):
         if us is None:
             for addr, s in env.connects[nconn0:]:
@@ -66,6 +71,10 @@ def _one_connection(xk, env, role, d0, s0, s1, abort_at, abort_side, abort_kind,
                         us.inq.append(b'')      # make sure the loop notices: the peer also closes
                 else:
                     tgt.inq.append(_abort_item(abort_kind))
+                    if abort_kind != 'garbage' or (role == 'forward' and abort_at == 1):
+                        # (garbage instead of the FIRST HTTP response makes the forward proxy's response parser raise: a protocol error ends
+                        # the connection; after a complete response, unparseable bytes are relayed untouched by design)
+                        injected = tgt
         elif act.startswith('c:') and not cs.closed:
             raw = act[2:].encode('latin-1')
             parts = raw.split(b'{0}')
@@ -88,6 +97,9 @@ def _one_connection(xk, env, role, d0, s0, s1, abort_at, abort_side, abort_kind,
             return 'exception escaped the executor loop: %r' % (e,)
         if not ex.works:
             break
+    if ex.works and injected is not None and not injected.inq:
+        # the proxy has read the end-of-stream / error we injected: the connection is over and must have been torn down by now
+        return 'connection still served although its peer closed / failed %d iterations ago' % (i - abort_at)
     if ex.works:
         # the connection is still open (no abort hit it): it ends by idle timeout
         env.clock = env.clock + 100000
@@ -154,8 +166,10 @@ def obligations(tier):
                     'cfg': {'role': role, 'abort_at': 99, 'abort_side': 'client', 'abort_kind': 'eof', 'repeat': True}, 'timeout': T})
         for at in range(0, n + 1):
             for side in ('client', 'upstream'):
-                for kind in ('eof', 'reset', 'epipe', 'eio', 'timeout'):
+                for kind in ('eof', 'reset', 'epipe', 'eio', 'timeout', 'timeout_noerrno', 'garbage'):
                     if side == 'upstream' and role in ('web', 'web404', 'garbage'):
+                        continue
+                    if kind in ('timeout_noerrno', 'garbage') and (side != 'upstream' or at not in (1, 2)):
                         continue
                     if tier == 'quick' and kind in ('eio', 'timeout') and at not in (1, 2):
                         continue
